@@ -9,6 +9,11 @@ CONSTANTS
   MainReadsErrs = TRUE
   GenVariants = {1}
   SlotRelease = "deferred"
+  TargetRule = "trimsuffix"
+  WalkRule = "filesonly"
+  OrphanStat = "fileonly"
+  RootRule = "exempt"
+  RootTrees <- TreesRoot
   SkipRule = "coded"
   TwoRuns = TRUE
   EmitCases = FALSE
